@@ -71,9 +71,12 @@ func runMut(raw Sx) (Sx, Sx) {
 		return wc
 	}
 	var wrongStable, wrongChanging, panics int64
+	var work int64 // requests served and mutator rounds completed: a deadlock is a parked goroutine AND no work getting done
+	progress := func() int64 { return atomic.LoadInt64(&work) }
 	stop := make(chan struct{})
 	var mwg sync.WaitGroup
 	guard := func(f func()) {
+		defer atomic.AddInt64(&work, 1)
 		defer func() {
 			if r := recover(); r != nil {
 				atomic.AddInt64(&panics, 1)
@@ -92,8 +95,22 @@ func runMut(raw Sx) (Sx, Sx) {
 			default:
 			}
 			guard(func() {
+				// nobody else changes the routes at /b/t: between its own two calls this goroutine knows what the OPTIONS
+				// filter must list there
+				allowAt := func() string {
+					hr, _ := http.NewRequest("OPTIONS", "http://h/b/t", nil)
+					rec := httptest.NewRecorder()
+					c.Dispatch(rec, hr)
+					return rec.Header().Get("Allow")
+				}
 				wb.Route(wb.GET("/t").To(say("BT")))
+				if got := allowAt(); got != "GET" {
+					atomic.AddInt64(&wrongChanging, 1)
+				}
 				wb.RemoveRoute("/b/t", "GET")
+				if got := allowAt(); got != "" {
+					atomic.AddInt64(&wrongChanging, 1)
+				}
 				if siblings < 12 {
 					// a sibling of the stable route: the same method and path, never eligible (its condition fails);
 					// adding it must leave the stable route alone
@@ -203,11 +220,11 @@ func runMut(raw Sx) (Sx, Sx) {
 		}(s)
 	}
 	blocked := 0
-	if b, d := waitOrDump(&swg, 20*time.Second, "sync.RWMutex", "webServicesLock", "(*Container)", "(*WebService)"); b {
+	if b, d := waitOrDumpProgress(&swg, 20*time.Second, progress, "sync.RWMutex", "webServicesLock", "(*Container)", "(*WebService)"); b {
 		blocked, lastDump = 1, d
 	}
 	close(stop)
-	if b, d := waitOrDump(&mwg, 5*time.Second, "sync.RWMutex", "(*Container)", "(*WebService)"); b {
+	if b, d := waitOrDumpProgress(&mwg, 5*time.Second, progress, "sync.RWMutex", "(*Container)", "(*WebService)"); b {
 		blocked, lastDump = 1, d
 	}
 	// a container that serves on http.DefaultServeMux refuses Remove (its mux cannot be rebuilt); the refusal must
@@ -237,7 +254,7 @@ func runMut(raw Sx) (Sx, Sx) {
 				atomic.AddInt64(&wrongStable, 1)
 			}
 		}()
-		if b, d := waitOrDump(&dwg, 5*time.Second, "sync.RWMutex", "(*Container)"); b {
+		if b, d := waitOrDumpProgress(&dwg, 5*time.Second, progress, "sync.RWMutex", "(*Container)"); b {
 			blocked, lastDump = 1, d
 		}
 	}
@@ -317,10 +334,10 @@ func runMut(raw Sx) (Sx, Sx) {
 				}
 			}()
 		}
-		if b, d := waitOrDump(&rwg, 20*time.Second, "sync.RWMutex", "(*Container)", "(*WebService)"); b {
+		if b, d := waitOrDumpProgress(&rwg, 20*time.Second, progress, "sync.RWMutex", "(*Container)", "(*WebService)"); b {
 			blocked, lastDump = 1, d
 		}
-		if b, d := waitOrDump(&r2, 5*time.Second, "sync.RWMutex", "(*Container)", "(*WebService)"); b {
+		if b, d := waitOrDumpProgress(&r2, 5*time.Second, progress, "sync.RWMutex", "(*Container)", "(*WebService)"); b {
 			blocked, lastDump = 1, d
 		}
 	}
